@@ -128,3 +128,12 @@ def construct_family(pairs=False, limit=None, rng=None):
         rng = rng or random.Random(seed())
         out = rng.sample(out, limit)
     return out
+
+
+def big_programs():
+    """programs whose images are larger than the 8 KiB reader/writer buffers (strings lying across buffer boundaries)"""
+    P = [('big:300-prints', '; '.join('print("line %d of a program whose image is larger than the reader buffers: ~\\n", %d)' % (i, i) for i in range(300))),
+         ('big:long-strings', '; '.join('print("%s\\n")' % (chr(97 + i % 26) * (3000 + 37 * i)) for i in range(8))),
+         ('big:many-functions', '; '.join('function f%d(a, b) -> begin let t = a * %d + b; if t > 3 then print("f%d ~\\n", t) else t end' % (i, i, i) for i in range(150)) + '; ' + '; '.join('f%d(%d, 1)' % (i, i) for i in range(150))),
+         ('big:utf8-strings', '; '.join('print("%s ~\\n", %d)' % ('é世😀' * (40 + i), i) for i in range(60)))]
+    return [{'name': n, 'text': t, 'ast': None} for n, t in P]
